@@ -53,6 +53,9 @@ type Solver struct {
 	Log        io.Writer // optional transcript
 	LastError  string
 	FallbackMs int // one-shot retry budget after an incremental "unknown" (0 = no retry)
+	// FPUninterpreted prints floating-point operations as uninterpreted functions over their bit
+	// patterns (an over-approximation: "unsat" stays valid, "sat" must be confirmed by replay)
+	FPUninterpreted bool
 }
 
 type level struct {
@@ -61,8 +64,11 @@ type level struct {
 }
 
 // New starts a solver. bin is "z3", "z3-new" or "cvc5".
-func New(bin string, timeoutMs int) (*Solver, error) {
-	s := &Solver{Bin: bin, TimeoutMs: timeoutMs}
+func New(bin string, timeoutMs int) (*Solver, error) { return NewWith(bin, timeoutMs, false) }
+
+// NewWith starts a solver, optionally abstracting floating point as uninterpreted functions.
+func NewWith(bin string, timeoutMs int, fpUF bool) (*Solver, error) {
+	s := &Solver{Bin: bin, TimeoutMs: timeoutMs, FPUninterpreted: fpUF}
 	return s, s.start()
 }
 
@@ -98,6 +104,24 @@ func (s *Solver) start() error {
 		s.send("(set-logic ALL)")
 	}
 	s.send("(set-option :produce-models true)")
+	if s.FPUninterpreted {
+		for _, w := range []int{32, 64} {
+			for _, op := range []string{"fadd", "fsub", "fmul", "fdiv"} {
+				s.send(fmt.Sprintf("(declare-fun uf_%s%d ((_ BitVec %d) (_ BitVec %d)) (_ BitVec %d))", op, w, w, w, w))
+			}
+			for _, op := range []string{"flt", "fle", "feq"} {
+				s.send(fmt.Sprintf("(declare-fun uf_%s%d ((_ BitVec %d) (_ BitVec %d)) Bool)", op, w, w, w))
+			}
+			for _, iw := range []int{8, 16, 32, 64} {
+				s.send(fmt.Sprintf("(declare-fun uf_sitof_%d_%d ((_ BitVec %d)) (_ BitVec %d))", iw, w, iw, w))
+				s.send(fmt.Sprintf("(declare-fun uf_uitof_%d_%d ((_ BitVec %d)) (_ BitVec %d))", iw, w, iw, w))
+				s.send(fmt.Sprintf("(declare-fun uf_ftosi_%d_%d ((_ BitVec %d)) (_ BitVec %d))", w, iw, w, iw))
+				s.send(fmt.Sprintf("(declare-fun uf_ftoui_%d_%d ((_ BitVec %d)) (_ BitVec %d))", w, iw, w, iw))
+			}
+		}
+		s.send("(declare-fun uf_ftof_32_64 ((_ BitVec 32)) (_ BitVec 64))")
+		s.send("(declare-fun uf_ftof_64_32 ((_ BitVec 64)) (_ BitVec 32))")
+	}
 	return nil
 }
 
@@ -197,6 +221,24 @@ func (s *Solver) ensure(x *term.Term) {
 	}
 	var body string
 	a := x.Args
+	if s.FPUninterpreted && x.Op >= term.OpFAdd && x.Op <= term.OpFToF {
+		switch x.Op {
+		case term.OpFAdd, term.OpFSub, term.OpFMul, term.OpFDiv:
+			n := map[term.Op]string{term.OpFAdd: "fadd", term.OpFSub: "fsub", term.OpFMul: "fmul", term.OpFDiv: "fdiv"}[x.Op]
+			body = fmt.Sprintf("(uf_%s%d %s %s)", n, x.W, s.ref(a[0]), s.ref(a[1]))
+		case term.OpFLt, term.OpFLe, term.OpFEq:
+			n := map[term.Op]string{term.OpFLt: "flt", term.OpFLe: "fle", term.OpFEq: "feq"}[x.Op]
+			body = fmt.Sprintf("(uf_%s%d %s %s)", n, a[0].W, s.ref(a[0]), s.ref(a[1]))
+		default:
+			n := map[term.Op]string{term.OpSIToF: "sitof", term.OpUIToF: "uitof", term.OpFToSI: "ftosi", term.OpFToUI: "ftoui", term.OpFToF: "ftof"}[x.Op]
+			body = fmt.Sprintf("(uf_%s_%d_%d %s)", n, a[0].W, x.W, s.ref(a[0]))
+		}
+		s.defs[x.ID] = true
+		lv := &s.levels[len(s.levels)-1]
+		lv.defs = append(lv.defs, x.ID)
+		s.send(fmt.Sprintf("(define-fun t%d () %s %s)", x.ID, sortOf(x), body))
+		return
+	}
 	switch x.Op {
 	case term.OpExtract:
 		body = fmt.Sprintf("((_ extract %d %d) %s)", x.Val>>8, x.Val&0xff, s.ref(a[0]))
@@ -314,7 +356,7 @@ func (s *Solver) Check(pc []*term.Term, extra []*term.Term, wantModel bool) (Res
 			s.pop()
 		}
 		s.Stats.Fallbacks++
-		r2, m2 := oneShotModel(s.Bin, s.FallbackMs, pc, extra, wantModel)
+		r2, m2 := oneShotModel(s.Bin, s.FallbackMs, pc, extra, wantModel, s.FPUninterpreted)
 		switch r2 {
 		case Sat:
 			s.Stats.Sat++
@@ -465,8 +507,8 @@ func (s *Solver) getModel() term.Model {
 
 var dumpSeq int32
 
-func oneShotModel(bin string, timeoutMs int, pc []*term.Term, extra []*term.Term, wantModel bool) (Result, term.Model) {
-	s := &Solver{Bin: bin, TimeoutMs: timeoutMs}
+func oneShotModel(bin string, timeoutMs int, pc []*term.Term, extra []*term.Term, wantModel bool, fpUF bool) (Result, term.Model) {
+	s := &Solver{Bin: bin, TimeoutMs: timeoutMs, FPUninterpreted: fpUF}
 	if d := os.Getenv("VERIF_DUMP_HARD"); d != "" {
 		n := atomic.AddInt32(&dumpSeq, 1)
 		if f, err := os.Create(fmt.Sprintf("%s/hard-%d-%d.smt2", d, os.Getpid(), n)); err == nil {
